@@ -347,6 +347,9 @@ func c13RunSeq(vw *vx.W, env c12Env, ops []c12Op, cycleFrom int) {
 			break
 		}
 	}
+	vw.Ctx().AddStates(1)
+	vw.Ctx().AddTransitions(int64(len(ops)))
+	vw.Ctx().AddTraces(1)
 	if w.pops > 0 {
 		vw.Nontrivial()
 	}
@@ -404,6 +407,9 @@ func c13RunLasso(vw *vx.W, x c13Lasso) {
 			return
 		}
 	}
+	vw.Ctx().AddStates(1)
+	vw.Ctx().AddTransitions(int64(len(ops)))
+	vw.Ctx().AddTraces(1)
 	if w.pops > 0 {
 		vw.Nontrivial()
 	}
